@@ -331,6 +331,34 @@ def main():
         if (obs["threads"], obs["mgr"], obs["fftw"], obs["compiled"]) != (want["threads"], want["mgr"], want["fftw"], want_c) or (want["numba"] != 0 and obs["numba"] != want["numba"]):
             chk.drift_note("global state after %s is %s, the specification says %s" % (json.dumps(hist), obs, want))
     chk.traces = len(hists)
+    # the caller UPDATES ITS SOURCE ARRAY IN PLACE between two solves (a flux series written into one buffer): the second
+    # solve is a solve of the new contents - the same object at the same address is not the same argument
+    from bldfm.solver import steady_state_transport_solver
+
+    soft_reset()
+    for rid in (2, 6, 8):
+        solve_request(rid)
+        q, kw = _REQUESTS[rid]
+        saved = q.copy()
+        try:
+            k = dict(kw)
+            args = (k.pop("z"), k.pop("profiles"), k.pop("domain"), k.pop("levels"))
+            _, c_a, f_a = steady_state_transport_solver(q, *args, **k)
+            c_a, f_a = np.array(c_a), np.array(f_a)
+            q *= 3.0
+            q[1, 2] += 0.5
+            _, c_b, f_b = steady_state_transport_solver(q, *args, **k)
+            c_b, f_b = np.array(c_b), np.array(f_b)
+            _, c_c, f_c = steady_state_transport_solver(q.copy(), *args, **k)
+            nsolves += 3
+            tol = 1e-12 if kw["precision"] == "double" else 1e-5
+            d = max(rel(c_b, np.asarray(c_c)), rel(f_b, np.asarray(f_c)))
+            chk.case(json.dumps(["source updated in place", rid]))
+            if d > tol:
+                chk.violation("request %d solved again after its source array was updated in place differs from the solve of an equal new array by %.3e relative (it %s the result for the earlier contents)"
+                              % (rid, d, "equals" if max(rel(c_b, c_a), rel(f_b, f_a)) == 0.0 else "is not"), {"kind": "source_updated_in_place", "request": rid}, klass={"check": "in_place_source", "request": rid})
+        finally:
+            np.copyto(q, saved)
     # single vs double precision: storage rounding only
     soft_reset()
     c1, f1 = solve_request(1)
